@@ -9,7 +9,8 @@
 \* Properties (C07: a serial filter runs one item at a time, serial_in_order in token order, no item lost or run twice): the items are processed in token
 \* order, each exactly once; a parked item is never overwritten; at the end nothing is parked.
 EXTENDS Integers, Sequences, FiniteSets, TLC
-CONSTANTS NTok, Window, ReadyTokens          \* NTok items; at most Window tokens are in flight (the pipeline's max_number_of_live_tokens); ReadyTokens: the
+CONSTANTS MaxParked,                      \* at most MaxParked items are parked at once (bounds the state space of the wide configurations)
+          NTok, Window, ReadyTokens          \* NTok items; at most Window tokens are in flight (the pipeline's max_number_of_live_tokens); ReadyTokens: the
                                             \* items arrive with tokens assigned by an earlier ordered filter (TRUE) or get theirs here (FALSE)
 Empty == [valid |-> FALSE, tok |-> 0]
 RECURSIVE NewSize(_, _)
@@ -30,17 +31,18 @@ PutTok(t) ==
     THEN LET g == IF t - low >= size THEN Grow(arr, size, low, t - low + 1) ELSE <<arr, size>> IN
          /\ arr' = [g[1] EXCEPT ![t % g[2]] = [valid |-> TRUE, tok |-> t]] /\ size' = g[2] /\ lastRes' = 1 /\ UNCHANGED <<busy, order>>
     ELSE /\ UNCHANGED <<arr, size>> /\ lastRes' = 0 /\ busy' = TRUE /\ order' = Append(order, t)
-Put(t) == /\ ReadyTokens /\ t \notin arrived /\ t < NTok /\ t - low < Window /\ t >= low
+NParked == Cardinality({i \in 0..size-1 : arr[i].valid})
+Put(t) == /\ ReadyTokens /\ t \notin arrived /\ (t = low \/ NParked < MaxParked) /\ t < NTok /\ t - low < Window /\ t >= low
           /\ arrived' = arrived \cup {t} /\ high' = IF t + 1 > high THEN t + 1 ELSE high        \* (high_token is not used for ready tokens; kept for the projection)
           /\ PutTok(t) /\ lastOp' = <<"put", t>> /\ UNCHANGED low
-PutNew == /\ ~ReadyTokens /\ high < NTok /\ high - low < Window
+PutNew == /\ ~ReadyTokens /\ high < NTok /\ (high = low \/ NParked < MaxParked) /\ high - low < Window
           /\ arrived' = arrived \cup {high} /\ high' = high + 1
           /\ PutTok(high) /\ lastOp' = <<"new", high>> /\ UNCHANGED low
 \* a serial filter that is busy with low_token finishes it
 Next == /\ busy /\ lastOp' = <<"next", low + 1>>
         /\ low' = low + 1
         /\ LET item == arr[(low + 1) % size] IN
-           /\ arr' = [arr EXCEPT ![(low + 1) % size] = [item EXCEPT !.valid = FALSE]]
+           /\ arr' = [arr EXCEPT ![(low + 1) % size] = Empty]                     \* item.is_valid = false (the stale token left in the slot is never read: normalised away)
            /\ IF item.valid THEN order' = Append(order, item.tok) /\ busy' = TRUE /\ lastRes' = item.tok + 100
               ELSE order' = order /\ busy' = FALSE /\ lastRes' = 0
         /\ UNCHANGED <<size, high, arrived>>
